@@ -29,6 +29,7 @@ int shim_parsenum(int type, int mode, const char *s, int64_t mn, int64_t mx, int
  * (host order) and up to 16 address bytes / the sun_path (NUL-terminated) in addr. */
 int shim_sock_resolve(const char *s, int *naddrs, int *family, int *port, uint8_t addr[128], char msg[SHIM_MSG]);
 /* sock_addr_ensure_port; returns 0 and the strlen of the result (or -1 for NULL) */
+int shim_sock_resolve_one(const char * s, int expect_some, char msg[SHIM_MSG]);
 int shim_ensure_port(const char *s, long *outlen, char msg[SHIM_MSG]);
 /* sock_addr_deserialize + re-serialise + dup/cmp + prettyprint (when well-formed) + free.
  * *flags: bit0 accepted, bit1 prettyprinted, bit2 prettyprint returned a string,
